@@ -526,7 +526,7 @@ func (s *Sim) checkNOCP(ctx *StepCtx) {
 	}
 	for _, e := range ctx.bufNotes {
 		if e.sess != nil && e.action&actNOCP != 0 {
-			want[fmt.Sprintf("%s:8805/%#x/%d", e.sess.Node, e.sess.CP, e.pdr)]++
+			want[fmt.Sprintf("%s/%#x/%d", s.nodeDst(e.sess.Node), e.sess.CP, e.pdr)]++
 		}
 	}
 	got := map[string]int{}
